@@ -197,9 +197,11 @@ func Execute(
 		for i := 1; i < attempt; i++ {
 			multiplier *= config.BackoffFactor
 		}
-		backoff := time.Duration(float64(config.InitialBackoff) * multiplier)
-		if backoff > config.MaxBackoff {
-			backoff = config.MaxBackoff
+		// Compare as floats before converting: the product can exceed the int64
+		// range, and converting such a value to time.Duration is not defined.
+		backoff := config.MaxBackoff
+		if product := float64(config.InitialBackoff) * multiplier; product < float64(config.MaxBackoff) {
+			backoff = time.Duration(product)
 		}
 
 		// Wait before retry
